@@ -80,6 +80,31 @@ func runC07(c *core.Ctx) {
 				c.Violate("destination.Destination.Equals", "equal-serialisations-compare-unequal", sh, b, "parsed and constructed destination with identical bytes compare unequal")
 			}
 		}
+		// the same identity built with the padding handed over in every form a caller may use
+		// (nil / empty non-nil / spare capacity): all of them serialise identically, so all of
+		// them are equal to each other and to the parsed one, in both directions
+		var forms []*destination.Destination
+		for form := 0; form < 3; form++ {
+			if kac, ok, err := lib.BuildKACPad(m, form); ok && err == nil {
+				if fd, err := destination.NewDestination(kac); err == nil && fd != nil {
+					forms = append(forms, fd)
+				}
+			}
+		}
+		for a := range forms {
+			if fb, err := forms[a].Bytes(); err != nil || !bytes.Equal(fb, b) {
+				continue
+			}
+			c.Bucket("padding-forms-compared")
+			if !d.Equals(forms[a]) || !forms[a].Equals(&d) {
+				c.Violate("destination.Destination.Equals", "equal-serialisations-compare-unequal", sh, b, fmt.Sprintf("parsed destination and one constructed with padding form %d have identical bytes but compare unequal", a))
+			}
+			for bb := range forms {
+				if !forms[a].Equals(forms[bb]) {
+					c.Violate("destination.Destination.Equals", "equal-serialisations-compare-unequal", sh, b, fmt.Sprintf("destinations constructed with padding forms %d and %d have identical bytes but compare unequal", a, bb))
+				}
+			}
+		}
 		// single-byte differences: every position class
 		positions := []int{r.Pick(32), 32 + r.Pick(224), 256 + r.Pick(96), 352 + r.Pick(32), 383, 0, 255, 256}
 		if len(b) > 391 {
@@ -135,6 +160,15 @@ func runC07(c *core.Ctx) {
 		ri2, _, _ := router_identity.ReadRouterIdentity(append([]byte{}, b...))
 		if !ri.Equal(ri2) {
 			c.Violate("router_identity.RouterIdentity.Equal", "equal-serialisations-compare-unequal", sh, b, "two parses of the same bytes compare unequal")
+		}
+		for form := 0; form < 3; form++ {
+			if kac, ok, err := lib.BuildKACPad(m, form); ok && err == nil {
+				if fr, err := router_identity.NewRouterIdentityFromKeysAndCert(kac); err == nil && fr != nil {
+					if fb, err := fr.Bytes(); err == nil && bytes.Equal(fb, b) && (!ri.Equal(fr) || !fr.Equal(ri)) {
+						c.Violate("router_identity.RouterIdentity.Equal", "equal-serialisations-compare-unequal", sh, b, fmt.Sprintf("parsed identity and one constructed with padding form %d have identical bytes but compare unequal", form))
+					}
+				}
+			}
 		}
 		if cri, ok, err := lib.BuildRouterIdentity(m, i%2); ok && err == nil {
 			if !ri.Equal(cri) {
